@@ -11,7 +11,7 @@
    pack start, and that position would not move with the pack. *)
 From Coq Require Import List Arith NArith Bool Lia.
 From Jbk Require Import Base.ListExtra Base.Bytes Base.Crc Base.Parser Base.Prog Format.Structs
-  Manifest.SetLocation Container.Reader Container.Embed Content.Pack Dir.Layout.
+  Manifest.SetLocation Container.Reader Container.Embed Content.Pack Dir.Layout Container.Check.
 Import ListNotations.
 Open Scope N_scope.
 
@@ -231,6 +231,27 @@ Qed.
 Theorem manifest_open_is_translation_invariant X f pos :
   run (X ++ f) (manifest_open_p (lenN X + pos)) = res_map (shift_manifest (lenN X)) (run f (manifest_open_p pos)).
 Proof. apply run_shifted. apply shifted_manifest_open. Qed.
+
+(* ---- the integrity check of a pack: same verdict wherever the pack lies ---- *)
+Lemma shifted_check_info k pos h : shifted k (fun x => x) (check_info_p pos h) (check_info_p (k + pos) h).
+Proof.
+  unfold check_info_p. replace (k + pos + ph_check_pos h) with (k + (pos + ph_check_pos h)) by lia.
+  constructor. intros [|x rest]; [constructor|].
+  destruct (x =? 0); [apply shifted_ret_id|]. destruct (x =? 1); [|constructor].
+  destruct (Nat.ltb _ _); [constructor|apply shifted_ret_id].
+Qed.
+
+Theorem pack_check_is_translation_invariant (H : list N -> list N) X f pos :
+  pack_check H (X ++ f) (lenN X + pos) = pack_check H f pos.
+Proof.
+  assert (Id : forall A (r : res A), res_map (fun x => x) r = r) by (intros A [a|e]; reflexivity).
+  unfold pack_check.
+  rewrite (run_shifted (fun x => x) X f _ _ (shifted_read_header (lenN X) pos)), Id.
+  destruct (run f (read_header_p pos)) as [h|e]; [|reflexivity].
+  rewrite (run_shifted (fun x => x) X f _ _ (shifted_check_info (lenN X) pos h)), Id.
+  destruct (run f (check_info_p pos h)) as [[hash|]|e]; try reflexivity.
+  rewrite read_raw_prefix. reflexivity.
+Qed.
 
 (* non-vacuity: the hand-made two-content pack of FilePack.v, behind 3 foreign bytes *)
 From Jbk Require Import Content.FilePack.
